@@ -9,6 +9,7 @@ import (
 	"testing"
 
 	bls "github.com/cloudflare/circl/ecc/bls12381"
+	"github.com/cloudflare/circl/ecc/bls12381/ff"
 	"github.com/cloudflare/circl/zz_verif/ref/curves"
 	"github.com/cloudflare/circl/zz_verif/vlib"
 	"pgregory.net/rapid"
@@ -628,4 +629,175 @@ func TestC13PairingConcurrent(t *testing.T) {
 		return
 	}
 	vlib.NonTrivialH(sub, "concurrent-batch", vlib.Hash64([]byte{byte(vlib.Seed), byte(vlib.Shard)}))
+}
+
+// TestC13GtAliased: every operation of the target group Gt and of the tower fields underneath it (ff.Fp12, Fp6,
+// Fp2: Add, Sub, Mul, Sqr, Inv, Frob, Exp) called with the receiver as an operand — z.Op(z,y), z.Op(x,z),
+// z.Op(z,z), z.Op(z) — must return what the call with a separate receiver returns; for Gt the values are also
+// checked against e(G1,G2)^(expression in the exponents).
+func TestC13GtAliased(t *testing.T) {
+	defer vlib.Done()
+	selftest(t)
+	a1 := g1Adapter()
+	r := a1.r
+	e0 := bls.Pair(bls.G1Generator(), bls.G2Generator())
+	sub := "aliased/bls12381.Gt+ff"
+	vlib.Check(t, vlib.N(60, 240), func(t *rapid.T) {
+		a, _ := drawExp(t, a1, "a")
+		b, _ := drawExp(t, a1, "b")
+		n, ncls := drawScalar(t, &adapter{r: r, sbytes: 32}, "n")
+		vlib.Eval(sub)
+		vlib.Class(sub, "n:"+ncls)
+		x, y := gtExp(e0, a, r), gtExp(e0, b, r)
+		desc := fmt.Sprintf("x=e0^%s y=e0^%s n=%s", a.Text(16), b.Text(16), n.Text(16))
+		gt := func(name string, got *bls.Gt, e *big.Int) bool {
+			if !got.IsEqual(gtExp(e0, e, r)) {
+				return !vlib.Report(t, "C13/bls12381.Gt."+name+"/aliased", desc)
+			}
+			return false
+		}
+		cp := func(g *bls.Gt) *bls.Gt { c := *g; return &c }
+		sc := blsScalar(n, 32)
+		z := cp(x)
+		z.Exp(z, sc)
+		if gt("Exp(z,n)", z, new(big.Int).Mul(a, n)) {
+			return
+		}
+		z = cp(x)
+		z.Mul(z, y)
+		if gt("Mul(z,y)", z, new(big.Int).Add(a, b)) {
+			return
+		}
+		z = cp(y)
+		z.Mul(x, z)
+		if gt("Mul(x,z)", z, new(big.Int).Add(a, b)) {
+			return
+		}
+		z = cp(x)
+		z.Mul(z, z)
+		if gt("Mul(z,z)", z, new(big.Int).Lsh(a, 1)) {
+			return
+		}
+		z = cp(x)
+		z.Sqr(z)
+		if gt("Sqr(z)", z, new(big.Int).Lsh(a, 1)) {
+			return
+		}
+		z = cp(x)
+		z.Inv(z)
+		if gt("Inv(z)", z, new(big.Int).Neg(a)) {
+			return
+		}
+		// tower fields: aliased call = call with a separate receiver
+		xb, _ := x.MarshalBinary()
+		yb, _ := y.MarshalBinary()
+		var X, Y ff.Fp12
+		if X.UnmarshalBinary(xb) != nil || Y.UnmarshalBinary(yb) != nil {
+			t.Fatalf("SELFTEST-FAIL cannot read a Gt element as Fp12")
+		}
+		nb := be(n, 32)
+		bad := func(level, name string) bool {
+			return !vlib.Report(t, "C13/bls12381.ff."+level+"."+name+"/aliased", desc)
+		}
+		{
+			type F = ff.Fp12
+			bin := map[string]func(z, x, y *F){"Add": (*F).Add, "Sub": (*F).Sub, "Mul": (*F).Mul}
+			un := map[string]func(z, x *F){"Sqr": (*F).Sqr, "Inv": (*F).Inv, "Frob": (*F).Frob, "Exp": func(z, x *F) { z.Exp(x, nb) }}
+			for name, f := range bin {
+				var w, z1, z2, z3, w3 F
+				f(&w, &X, &Y)
+				z1 = X
+				f(&z1, &z1, &Y)
+				z2 = Y
+				f(&z2, &X, &z2)
+				f(&w3, &X, &X)
+				z3 = X
+				f(&z3, &z3, &z3)
+				if z1.IsEqual(&w) != 1 || z2.IsEqual(&w) != 1 || z3.IsEqual(&w3) != 1 {
+					if bad("Fp12", name) {
+						return
+					}
+				}
+			}
+			for name, f := range un {
+				var w, z1 F
+				f(&w, &X)
+				z1 = X
+				f(&z1, &z1)
+				if z1.IsEqual(&w) != 1 {
+					if bad("Fp12", name) {
+						return
+					}
+				}
+			}
+		}
+		{
+			type F = ff.Fp6
+			X6, Y6 := X[0], Y[1]
+			bin := map[string]func(z, x, y *F){"Add": (*F).Add, "Sub": (*F).Sub, "Mul": (*F).Mul}
+			un := map[string]func(z, x *F){"Sqr": (*F).Sqr, "Inv": (*F).Inv, "Frob": (*F).Frob}
+			for name, f := range bin {
+				var w, z1, z2, z3, w3 F
+				f(&w, &X6, &Y6)
+				z1 = X6
+				f(&z1, &z1, &Y6)
+				z2 = Y6
+				f(&z2, &X6, &z2)
+				f(&w3, &X6, &X6)
+				z3 = X6
+				f(&z3, &z3, &z3)
+				if z1.IsEqual(&w) != 1 || z2.IsEqual(&w) != 1 || z3.IsEqual(&w3) != 1 {
+					if bad("Fp6", name) {
+						return
+					}
+				}
+			}
+			for name, f := range un {
+				var w, z1 F
+				f(&w, &X6)
+				z1 = X6
+				f(&z1, &z1)
+				if z1.IsEqual(&w) != 1 {
+					if bad("Fp6", name) {
+						return
+					}
+				}
+			}
+		}
+		{
+			type F = ff.Fp2
+			X2, Y2 := X[0][1], Y[1][2]
+			bin := map[string]func(z, x, y *F){"Add": (*F).Add, "Sub": (*F).Sub, "Mul": (*F).Mul}
+			un := map[string]func(z, x *F){"Sqr": (*F).Sqr, "Inv": (*F).Inv, "Frob": (*F).Frob, "ExpVarTime": func(z, x *F) { z.ExpVarTime(x, nb) }}
+			for name, f := range bin {
+				var w, z1, z2, z3, w3 F
+				f(&w, &X2, &Y2)
+				z1 = X2
+				f(&z1, &z1, &Y2)
+				z2 = Y2
+				f(&z2, &X2, &z2)
+				f(&w3, &X2, &X2)
+				z3 = X2
+				f(&z3, &z3, &z3)
+				if z1.IsEqual(&w) != 1 || z2.IsEqual(&w) != 1 || z3.IsEqual(&w3) != 1 {
+					if bad("Fp2", name) {
+						return
+					}
+				}
+			}
+			for name, f := range un {
+				var w, z1 F
+				f(&w, &X2)
+				z1 = X2
+				f(&z1, &z1)
+				if z1.IsEqual(&w) != 1 {
+					if bad("Fp2", name) {
+						return
+					}
+				}
+			}
+		}
+		vlib.NonTrivial(sub, "aliased", a.Bytes(), []byte{0}, b.Bytes(), []byte{1}, n.Bytes())
+		vlib.Sample(sub, "n:"+ncls, desc)
+	})
 }
